@@ -46,7 +46,7 @@ AggStopped ==
 \* an interrupt while the joined file is being loaded: the loader stops within ten lines -- the read offset of the joined file (in KiB) ends within a few
 \* read-ahead buffers (LoadSlackKb) of where it stood when the signal was sent, unless the load had all but finished by then (inconclusive: admitted) --,
 \* no input line is processed, nothing is printed by a SELECT (an aggregate prints no table either: no line was consumed), no error, status 0
-LoadSlackKb == 4096
+LoadSlackKb == 8192
 JoinLoadStopped ==
   /\ l <= Len(Rec) /\ E.ev = "sigint" /\ E.kind = "joinload"
   /\ Clean
